@@ -56,7 +56,9 @@ class ConfExplorer(concur.Explorer):
         self.sock_of = {}           # id(wrapper) -> socket id
 
     def url(self, c):
-        return f"https://o{c.origin}.example/{c.token}"
+        # plain http: the connection is established by the TCP connect alone - one observation, two model steps (tcp ok, tls ok:
+        # the model's TLS step stands for "whatever remains of the establishment", here nothing)
+        return f"{'http' if self.cfg.get('plain') else 'https'}://o{c.origin}.example/{c.token}"
 
     def make_pool(self):
         import httpcore
@@ -265,7 +267,7 @@ def run_one(runtime, cfg, seed, search):
 def gen_cfg(rng):
     return {"max_connections": rng.choice([1, 1, 2, 3]), "origins": rng.choice([1, 2, 3]), "callers": rng.randint(2, 5),
             "max_keepalive": rng.choice([None, None, 0, 1]), "p_fault": rng.choice([0.0, 0.15]), "p_cancel": rng.choice([0.0, 0.0, 0.1]),
-            "p_conn_close": rng.choice([0.0, 0.3]), "http2": False}
+            "p_conn_close": rng.choice([0.0, 0.3]), "http2": False, "plain": rng.random() < 0.35}
 
 
 def run_conformance(ctx, rec, n_quick, n_thorough):
